@@ -5,7 +5,10 @@
    configured maximum, its withdrawn total is the sum of their amounts, liquidity left + withdrawn total = deposited amount -
    participation fee, and every recorded withdrawal is a non-negative amount booked on the depositor's own deposit.  That withdrawals
    leave C01 and C02 intact is part of C01_custody and C02_coverage (both invariants go through the withdrawal transition).
-   Grant expiry and the balance effects are decided per run by the Go monitors + correspondence. *)
+   Grant expiry over ALL histories (C09_grants_unexpired, C09_delegated_needs_live_grant; Proofs/GrantLive.v): the authz store only ever
+   holds unexpired grants (no expiry, or block time <= expiry: BeginBlock prunes, MsgGrant refuses a past expiry, consumption keeps the
+   expiry), so a delegated deposit or withdrawal is executed only under an existing, unexpired grant whose limit covers the amount.
+   The balance effects are decided per run by the Go monitors + correspondence. *)
 From Coq Require Import ZArith Bool List.
 From Sge Require Import Lib.Dec Model.Types Model.Orderbook Model.Chain Proofs.BookFacts Proofs.Gate.
 Open Scope Z_scope.
@@ -52,3 +55,19 @@ Theorem C09_records : forall P bk supply vault MP t0 sw sd ops,
   (forall w, In w (ms_wds x) -> 0 <= w_amount w /\ exists d, In d (ms_deps x) /\ d_pidx d = w_pidx w /\ d_depositor d = w_depositor w).
 Proof. exact house_records_spelled. Qed.
 Print Assumptions C09_records.
+
+From Sge Require Import Proofs.GrantLive.
+(* every grant in the authz store of every reachable state is unexpired *)
+Theorem C09_grants_unexpired : forall bk supply P vault MP t0 sw sd ops g,
+  In g (c_grants (run (init bk supply P vault MP t0 sw sd) ops)) ->
+  g_exp g < 0 \/ c_now (run (init bk supply P vault MP t0 sw sd) ops) <= g_exp g.
+Proof. exact grants_unexpired_over_histories. Qed.
+Print Assumptions C09_grants_unexpired.
+
+(* consuming a grant from a store of unexpired grants: the grant exists, is unexpired, covers the amount; the store stays unexpired *)
+Theorem C09_delegated_needs_live_grant : forall now gs grantee granter kind amount gs',
+  use_grant now gs grantee granter kind amount = Some gs' -> (forall g, In g gs -> unexpired now g) ->
+  (exists g, findb (grant_is grantee granter kind) gs = Some g /\ unexpired now g /\ amount <= g_limit g) /\
+  forall g, In g gs' -> unexpired now g.
+Proof. exact use_grant_live. Qed.
+Print Assumptions C09_delegated_needs_live_grant.
